@@ -73,20 +73,16 @@ func (s *fakeSender) snapshot() [][]string {
 	return append([][]string(nil), s.calls...)
 }
 
-// fakeCreator mirrors p2p.NeighborFactory: LookupIP(ip) (scripted table), then a sender whose Target() is
+// fakeCreator mirrors p2p.NewNeighbor (LookupIP rewriting of host names is out of scope): a sender whose Target() is
 // network.NewTarget(lookedUpIp, port).Value(); CreateSender fails for scripted unreachable endpoints.
 type fakeCreator struct {
 	mu          sync.Mutex
-	lookup      map[string]string
 	unreachable map[string]bool
 	calls       []endpoint
 	created     []*fakeSender
 }
 
 func (c *fakeCreator) targetFor(ip, port string) string {
-	if r, ok := c.lookup[ip]; ok {
-		ip = r
-	}
 	return network.NewTarget(ip, port).Value()
 }
 
@@ -116,8 +112,12 @@ func (c *fakeCreator) beginRound(unreachable []endpoint) {
 
 // peekScores reads the private map Neighborhood.scoresByTargetValue (read-only, between operations).
 func peekScores(nb *network.Neighborhood) (map[string]int, bool) {
+	return peekMap(nb, "scoresByTargetValue")
+}
+
+func peekMap(nb *network.Neighborhood, field string) (map[string]int, bool) {
 	v := reflect.ValueOf(nb).Elem()
-	f := v.FieldByName("scoresByTargetValue")
+	f := v.FieldByName(field)
 	if !f.IsValid() || f.Kind() != reflect.Map || !f.CanAddr() {
 		return nil, false
 	}
@@ -152,7 +152,6 @@ type Scenario struct {
 	HostPort string            `json:"hostPort"`
 	Max      int               `json:"max"`
 	Seeds    []Seed            `json:"seeds"`
-	Lookup   map[string]string `json:"lookup,omitempty"`
 	Ops      []Op              `json:"ops"`
 	Kinds    map[string]string `json:"-"` // value -> generator kind (statistics only)
 }
@@ -180,6 +179,8 @@ type Stats struct {
 	Strong       map[string]int  `json:"strong_reading_hits"`
 	Samples      []string        `json:"samples"`
 	ModelChecked int             `json:"model_answers_compared"`
+	NetworkPairs int             `json:"network_id_pairs"`
+	ParamChecks  int             `json:"param_hypothesis_checks"`
 }
 
 func newStats() *Stats {
@@ -197,16 +198,16 @@ func portOnNetwork(rng *rand.Rand, hostPort string) string {
 	case len(hostPort) == 5 && hostPort[:3] == "106":
 		return fmt.Sprintf("106%02d", 1+rng.Intn(99))
 	default:
-		return []string{"8106", "443", "1060", "106000", "0", "65535"}[rng.Intn(6)]
+		return []string{"8106", "443", "1060", "106000", "0", "65535", "10599", "10700", "20601"}[rng.Intn(9)]
 	}
 }
 
 func foreignPort(rng *rand.Rand, hostPort string) string {
 	switch {
 	case hostPort == "10600":
-		return []string{"10601", "10699", "8080", "106ab"}[rng.Intn(4)]
+		return []string{"10601", "10699", "8080", "106ab", "10599", "10700", "106000", "1060"}[rng.Intn(8)]
 	case len(hostPort) == 5 && hostPort[:3] == "106":
-		return []string{"10600", "8080", "1060", ""}[rng.Intn(4)]
+		return []string{"10600", "8080", "1060", "", "10599", "10700", "20601", "10060", "106001"}[rng.Intn(9)]
 	default:
 		return []string{"10600", "10601", "10650"}[rng.Intn(3)]
 	}
@@ -214,7 +215,7 @@ func foreignPort(rng *rand.Rand, hostPort string) string {
 
 // genScenario draws everything from rng.
 func genScenario(rng *rand.Rand, negMax bool) *Scenario {
-	sc := &Scenario{Lookup: map[string]string{}, Kinds: map[string]string{}}
+	sc := &Scenario{Kinds: map[string]string{}}
 	switch rng.Intn(10) {
 	case 0, 1:
 		sc.HostIp = "2001:db8::9"
@@ -255,11 +256,6 @@ func genScenario(rng *rand.Rand, negMax bool) *Scenario {
 			add(network.NewTarget(ip, port).Value(), "valid-ipv6")
 		case 1:
 			name := fmt.Sprintf("node-%d.example", rng.Intn(50))
-			if rng.Intn(2) == 0 && len(validV4) > 0 {
-				sc.Lookup[name] = validV4[rng.Intn(len(validV4))].Ip // DNS alias of another announced peer
-			} else {
-				sc.Lookup[name] = fmt.Sprintf("10.1.0.%d", 1+rng.Intn(200))
-			}
 			add(name+":"+port, "valid-hostname")
 		default:
 			ip := fmt.Sprintf("10.0.%d.%d", rng.Intn(3), 10+rng.Intn(60))
@@ -433,9 +429,11 @@ func scoresCanon(m map[string]int) string {
 	return sb.String()
 }
 
-func modelScores(ans map[string]any) map[string]int {
+func modelScores(ans map[string]any) map[string]int { return modelScoresOf(ans, "scores") }
+
+func modelScoresOf(ans map[string]any, field string) map[string]int {
 	m := map[string]int{}
-	arr, _ := ans["scores"].([]any)
+	arr, _ := ans[field].([]any)
 	for _, e := range arr {
 		p, _ := e.([]any)
 		if len(p) == 2 {
@@ -504,9 +502,9 @@ type cand struct {
 // ---------------------------------------------------------------------------------------------- runner
 
 type runner struct {
-	drv    *Driver
-	stats  *Stats
-	strict bool
+	drv        *Driver
+	stats      *Stats
+	strongOnly bool // replaying a regression witness
 }
 
 func safely(f func()) (msg string, panicked bool) {
@@ -523,18 +521,31 @@ func safely(f func()) (msg string, panicked bool) {
 func (r *runner) infoFor(c *fakeCreator, v string) map[string]any {
 	t, err := network.NewTargetFromValue(v)
 	if err != nil {
-		return map[string]any{"v": v, "ok": false, "ip": "", "port": "", "target": ""}
+		return map[string]any{"v": v, "ok": false, "ip": "", "port": "", "canon": "", "target": ""}
 	}
-	return map[string]any{"v": v, "ok": true, "ip": t.Ip(), "port": t.Port(), "target": c.targetFor(t.Ip(), t.Port())}
+	return map[string]any{"v": v, "ok": true, "ip": t.Ip(), "port": t.Port(),
+		"canon": network.NewTarget(t.Ip(), t.Port()).Value(), "target": c.targetFor(t.Ip(), t.Port())}
+}
+
+// canonOf is the canonical spelling net.JoinHostPort(net.SplitHostPort(v)) computed with the repo's own
+// NewTargetFromValue / NewTarget (independent of whether NewTargetFromValue itself canonicalises).
+func canonOf(v string) (string, bool) {
+	t, err := network.NewTargetFromValue(v)
+	if err != nil {
+		return "", false
+	}
+	return network.NewTarget(t.Ip(), t.Port()).Value(), true
 }
 
 // runScenario executes sc on a fresh real Neighborhood and a fresh model state; count=false while minimising.
-func (r *runner) runScenario(sc *Scenario, count bool) (fails []Failure) {
+// strongOnly: no model, no value-level checks; only the endpoint-level clauses, through all operations
+// (used for the regression witnesses, so that a later symptom is not hidden by an earlier one).
+func (r *runner) runScenario(sc *Scenario, count bool, strongOnly bool) (fails []Failure) {
 	st := r.stats
 	fail := func(kind, sig, detail string, op int) {
 		fails = append(fails, Failure{Kind: kind, Signature: sig, Detail: detail, OpIndex: op, FoundInput: true})
 	}
-	creator := &fakeCreator{lookup: sc.Lookup, unreachable: map[string]bool{}}
+	creator := &fakeCreator{unreachable: map[string]bool{}}
 	hostTarget := network.NewTarget(sc.HostIp, sc.HostPort)
 	hostValue := hostTarget.Value()
 	hostEp := endpoint{sc.HostIp, sc.HostPort}
@@ -550,9 +561,13 @@ func (r *runner) runScenario(sc *Scenario, count bool) (fails []Failure) {
 	if seedsJ == nil {
 		seedsJ = [][]any{}
 	}
+	seedsArg := map[string]int{}
+	for k, v := range seeds {
+		seedsArg[k] = v
+	}
 	var nb *network.Neighborhood
 	if msg, p := safely(func() {
-		nb = network.NewNeighborhood(creator, sc.HostIp, sc.HostPort, sc.Max, seeds, nil)
+		nb = network.NewNeighborhood(creator, sc.HostIp, sc.HostPort, sc.Max, seedsArg, nil)
 	}); p {
 		fail("prop", "C17/panic/new-neighborhood", "NewNeighborhood panicked: "+msg, -1)
 		return
@@ -576,45 +591,117 @@ func (r *runner) runScenario(sc *Scenario, count bool) (fails []Failure) {
 	var vals []string
 	for v := range mentioned {
 		vals = append(vals, v)
+		if c, ok := canonOf(v); ok && !mentioned[c] { // the keys the node files them under
+			vals = append(vals, c)
+		}
 	}
 	sort.Strings(vals)
+	vals = dedupSorted(vals)
 	var infos []map[string]any
 	for _, v := range vals {
 		infos = append(infos, r.infoFor(creator, v))
+		// the hypotheses of the theorems on the parameters, checked on the real functions:
+		//   Env.RoundTrip     SplitHostPort(JoinHostPort(SplitHostPort(v))) = SplitHostPort(v)
+		//   Env.TargetIsJoin  Target() of the sender created for (ip, port) = JoinHostPort(ip, port)
+		if t, err := network.NewTargetFromValue(v); err == nil {
+			joined := network.NewTarget(t.Ip(), t.Port()).Value()
+			t2, err2 := network.NewTargetFromValue(joined)
+			if err2 != nil || t2.Ip() != t.Ip() || t2.Port() != t.Port() {
+				fail("tie", "C17/param/round-trip", fmt.Sprintf("SplitHostPort(%q)=(%q,%q) but JoinHostPort gives %q which does not split back", v, t.Ip(), t.Port(), joined), -1)
+				return
+			}
+			if creator.targetFor(t.Ip(), t.Port()) != joined {
+				fail("tie", "C17/param/target-is-join", fmt.Sprintf("sender for (%q,%q) reports %q, JoinHostPort gives %q", t.Ip(), t.Port(), creator.targetFor(t.Ip(), t.Port()), joined), -1)
+				return
+			}
+			if count {
+				st.ParamChecks++
+			}
+		}
 	}
-	if _, err := r.drv.ask(map[string]any{"op": "init", "hostIp": sc.HostIp, "hostPort": sc.HostPort,
-		"hostValue": hostValue, "max": sc.Max, "seeds": seedsJ, "info": infos}); err != nil {
-		fail("diff", "C17/harness/driver", err.Error(), -1)
+	acceptable := func(v string) bool {
+		t, err := network.NewTargetFromValue(v)
+		return err == nil && hostTarget.IsSameNetworkId(t)
+	}
+	strongHit := false
+	strong := func(k, detail string) {
+		strongHit = true
+		if count {
+			st.Strong[k]++
+		}
+		fail("prop", "C17/strong/"+k, detail, -2)
+	}
+	checkKeys := func(what string, m map[string]int, needAcceptable bool) {
+		for k := range m {
+			c, ok := canonOf(k)
+			switch {
+			case needAcceptable && !acceptable(k):
+				strong("retained-unacceptable-target", fmt.Sprintf("%s holds %q, which is malformed or on another network: {%s}", what, k, scoresCanon(m)))
+				return
+			case ok && c != k:
+				strong("retained-noncanonical-spelling", fmt.Sprintf("%s holds %q, canonical spelling is %q: {%s}", what, k, c, scoresCanon(m)))
+				return
+			}
+		}
+	}
+	implSeeds, okSeeds := peekMap(nb, "scoresBySeedTargetValue")
+	if !okSeeds {
+		fail("diff", "C17/harness/peek-unavailable", "cannot read Neighborhood.scoresBySeedTargetValue", -1)
 		fails[len(fails)-1].FoundInput = false
+		return
+	}
+	checkKeys("the seed map", implSeeds, false)
+	if !strongOnly && !strongHit {
+		// seeds re-keyed by canonical spelling, higher score wins, malformed seeds dropped (a malformed seed
+		// that is kept has no observable effect and is tolerated: compared on the well-formed keys)
+		wantSeeds := map[string]int{}
+		for k, v := range seeds {
+			if c, ok := canonOf(k); ok {
+				if old, known := wantSeeds[c]; !known || old < v {
+					wantSeeds[c] = v
+				}
+			}
+		}
+		haveSeeds := map[string]int{}
+		for k, v := range implSeeds {
+			if _, ok := canonOf(k); ok {
+				haveSeeds[k] = v
+			}
+		}
+		if scoresCanon(haveSeeds) != scoresCanon(wantSeeds) {
+			fail("prop", "C17/prop/seeds", fmt.Sprintf("NewNeighborhood seeds: have {%s} want {%s}", scoresCanon(haveSeeds), scoresCanon(wantSeeds)), -1)
+		}
+		ans, err := r.drv.ask(map[string]any{"op": "init", "hostIp": sc.HostIp, "hostPort": sc.HostPort,
+			"hostValue": hostValue, "max": sc.Max, "seeds": seedsJ, "info": infos})
+		if err != nil {
+			fail("diff", "C17/harness/driver", err.Error(), -1)
+			fails[len(fails)-1].FoundInput = false
+			return
+		}
+		st.ModelChecked++
+		if m := modelScoresOf(ans, "seeds"); scoresCanon(m) != scoresCanon(haveSeeds) {
+			fail("diff", "C17/diff/seeds-after-init", fmt.Sprintf("model {%s} impl {%s}", scoresCanon(m), scoresCanon(haveSeeds)), -1)
+		}
+		if h, _ := ans["host"].(string); h != hostValue {
+			fail("diff", "C17/diff/host-target", fmt.Sprintf("model %q impl %q", h, hostValue), -1)
+		}
+	}
+	for j := range fails {
+		if fails[j].OpIndex == -2 {
+			fails[j].OpIndex = -1
+		}
+	}
+	if len(fails) > 0 && !strongOnly {
 		return
 	}
 	if count {
 		st.Scenarios++
 		st.MaxHist[fmt.Sprint(sc.Max)]++
 	}
-	acceptable := func(v string) bool {
-		t, err := network.NewTargetFromValue(v)
-		return err == nil && hostTarget.IsSameNetworkId(t)
-	}
-	strong := func(k string) {
-		if count {
-			st.Strong[k]++
-		}
-		if r.strict {
-			fail("prop", "C17/strong/"+k, "strong (endpoint) reading of C17 violated: "+k, -2)
-		}
-	}
-	checkJunk := func(post map[string]int) {
-		for k := range post {
-			if !acceptable(k) {
-				strong("retained-unacceptable-target")
-				return
-			}
-		}
-	}
 
 	for i, op := range sc.Ops {
 		nFailsBefore := len(fails)
+		strongHit = false
 		if count {
 			st.Evaluations++
 			st.OpKinds[op.Kind]++
@@ -637,27 +724,23 @@ func (r *runner) runScenario(sc *Scenario, count bool) (fails []Failure) {
 				return
 			}
 			post, _ := peekScores(nb)
+			checkKeys(fmt.Sprintf("after AddTargets(%q) the score map", op.Targets), post, true)
+			if strongOnly || strongHit {
+				break
+			}
 			// C17 clause "retained only if well-formed and on the node's own network", evaluated directly
 			want := map[string]int{}
 			for k, s := range pre {
 				want[k] = s
 			}
 			for _, t := range op.Targets {
-				if _, known := want[t]; !known && acceptable(t) {
-					want[t] = 0
+				c, _ := canonOf(t)
+				if _, known := want[c]; !known && acceptable(t) {
+					want[c] = 0
 				}
 			}
 			if scoresCanon(post) != scoresCanon(want) {
 				sig := "C17/prop/retained"
-				for k := range post {
-					if _, w := want[k]; !w {
-						if _, err := network.NewTargetFromValue(k); err != nil {
-							sig = "C17/prop/retained/malformed-kept"
-						} else if !acceptable(k) {
-							sig = "C17/prop/retained/foreign-network-kept"
-						}
-					}
-				}
 				for k := range want {
 					if _, h := post[k]; !h {
 						sig = "C17/prop/retained/acceptable-dropped"
@@ -674,7 +757,6 @@ func (r *runner) runScenario(sc *Scenario, count bool) (fails []Failure) {
 			if m := modelScores(ans); scoresCanon(m) != scoresCanon(post) {
 				fail("diff", "C17/diff/scores-after-add", fmt.Sprintf("model {%s} impl {%s}", scoresCanon(m), scoresCanon(post)), i)
 			}
-			checkJunk(post)
 		case "inc":
 			if count {
 				st.TargetKinds["inc:"+sc.Kinds[op.Target]]++
@@ -684,11 +766,18 @@ func (r *runner) runScenario(sc *Scenario, count bool) (fails []Failure) {
 				return
 			}
 			post, _ := peekScores(nb)
+			checkKeys(fmt.Sprintf("after Incentive(%q) the score map", op.Target), post, true)
+			if strongOnly || strongHit {
+				break
+			}
 			want := map[string]int{}
 			for k, s := range pre {
 				want[k] = s
 			}
-			want[op.Target]++
+			if acceptable(op.Target) {
+				c, _ := canonOf(op.Target)
+				want[c]++
+			}
 			if scoresCanon(post) != scoresCanon(want) {
 				fail("prop", "C17/prop/incentive", fmt.Sprintf("after Incentive(%q): have {%s} want {%s}", op.Target, scoresCanon(post), scoresCanon(want)), i)
 			}
@@ -701,9 +790,8 @@ func (r *runner) runScenario(sc *Scenario, count bool) (fails []Failure) {
 			if m := modelScores(ans); scoresCanon(m) != scoresCanon(post) {
 				fail("diff", "C17/diff/scores-after-incentive", fmt.Sprintf("model {%s} impl {%s}", scoresCanon(m), scoresCanon(post)), i)
 			}
-			checkJunk(post)
 		case "sync":
-			r.syncOp(sc, i, op, nb, creator, pre, seeds, hostValue, hostEp, count, fail, strong)
+			r.syncOp(sc, i, op, nb, creator, pre, implSeeds, hostValue, hostEp, count, strongOnly, fail, strong, &strongHit)
 		default:
 			fail("diff", "C17/harness/bad-op", op.Kind, i)
 			return
@@ -713,7 +801,7 @@ func (r *runner) runScenario(sc *Scenario, count bool) (fails []Failure) {
 				fails[j].OpIndex = i
 			}
 		}
-		if len(fails) > 0 {
+		if len(fails) > 0 && !strongOnly {
 			return // stop at the first failing operation
 		}
 	}
@@ -721,8 +809,8 @@ func (r *runner) runScenario(sc *Scenario, count bool) (fails []Failure) {
 }
 
 func (r *runner) syncOp(sc *Scenario, i int, op Op, nb *network.Neighborhood, creator *fakeCreator,
-	pre map[string]int, seeds map[string]int, hostValue string, hostEp endpoint, count bool,
-	fail func(kind, sig, detail string, op int), strong func(string)) {
+	pre map[string]int, seeds map[string]int, hostValue string, hostEp endpoint, count bool, strongOnly bool,
+	fail func(kind, sig, detail string, op int), strong func(k, detail string), strongHit *bool) {
 	st := r.stats
 	prev := nb.Senders()
 	creator.beginRound(op.Unreachable)
@@ -739,18 +827,20 @@ func (r *runner) syncOp(sc *Scenario, i int, op Op, nb *network.Neighborhood, cr
 	creator.mu.Unlock()
 	post, _ := peekScores(nb)
 
-	// ---- the model's prediction
-	unJ := [][]string{}
-	for _, e := range op.Unreachable {
-		unJ = append(unJ, []string{e.Ip, e.Port})
+	// ---- the model's prediction (asked after the endpoint-level clauses were evaluated)
+	askModel := func() (map[string]any, bool) {
+		unJ := [][]string{}
+		for _, e := range op.Unreachable {
+			unJ = append(unJ, []string{e.Ip, e.Port})
+		}
+		ans, err := r.drv.ask(map[string]any{"op": "sync", "unreachable": unJ})
+		if err != nil {
+			fail("diff", "C17/harness/driver", err.Error(), i)
+			return nil, false
+		}
+		st.ModelChecked++
+		return ans, true
 	}
-	ans, err := r.drv.ask(map[string]any{"op": "sync", "unreachable": unJ})
-	if err != nil {
-		fail("diff", "C17/harness/driver", err.Error(), i)
-		return
-	}
-	st.ModelChecked++
-	mPanic, _ := ans["panic"].(bool)
 
 	src := pre
 	source := "known"
@@ -763,6 +853,14 @@ func (r *runner) syncOp(sc *Scenario, i int, op Op, nb *network.Neighborhood, cr
 		st.SourceHist[source]++
 	}
 	if panicked {
+		if strongOnly {
+			return
+		}
+		ans, ok := askModel()
+		if !ok {
+			return
+		}
+		mPanic, _ := ans["panic"].(bool)
 		if sc.Max >= 0 {
 			fail("prop", "C17/panic/synchronize", fmt.Sprintf("Synchronize panicked with max=%d: %s", sc.Max, msg), i)
 		}
@@ -778,10 +876,6 @@ func (r *runner) syncOp(sc *Scenario, i int, op Op, nb *network.Neighborhood, cr
 		if count {
 			st.RoundShapes["panic(max<0)"]++
 		}
-		return
-	}
-	if mPanic {
-		fail("diff", "C17/diff/panic", "model predicts a panic, implementation returned", i)
 		return
 	}
 	var outs []*fakeSender
@@ -805,6 +899,52 @@ func (r *runner) syncOp(sc *Scenario, i int, op Op, nb *network.Neighborhood, cr
 	}
 	for k := 0; k < 2000 && runtime.NumGoroutine() > baseline; k++ {
 		time.Sleep(50 * time.Microsecond)
+	}
+
+	// ---- C17 with peers identified by endpoint, evaluated directly on the implementation
+	descOuts := func() string {
+		var l []string
+		for _, s := range outs {
+			l = append(l, s.target)
+		}
+		return fmt.Sprintf("host=%s map={%s} outbounds=%q", hostValue, scoresCanon(src), l)
+	}
+	for a := 0; a < len(outs); a++ {
+		if outs[a].target == hostValue || outs[a].ep == hostEp {
+			strong("host-endpoint-selected-under-other-spelling", "the node selected its own endpoint as an outbound: "+descOuts())
+			break
+		}
+	}
+dup:
+	for a := 0; a < len(outs); a++ {
+		for b := a + 1; b < len(outs); b++ {
+			if outs[a].ep == outs[b].ep {
+				strong("same-endpoint-selected-twice", "two outbounds have the same endpoint: "+descOuts())
+				break dup
+			}
+		}
+	}
+own:
+	for _, s := range outs {
+		for _, call := range s.snapshot() {
+			for _, g := range call {
+				if c, ok := canonOf(g); ok && g != s.target && c == s.target {
+					strong("peer-sent-its-own-target-in-other-spelling", fmt.Sprintf("peer %s was sent %q", s.target, call))
+					break own
+				}
+			}
+		}
+	}
+	if strongOnly || *strongHit {
+		return
+	}
+	ans, ok := askModel()
+	if !ok {
+		return
+	}
+	if mPanic, _ := ans["panic"].(bool); mPanic {
+		fail("diff", "C17/diff/panic", "model predicts a panic, implementation returned", i)
+		return
 	}
 
 	// ---- C17 evaluated directly on the implementation (peer = announced value, as the code sees it)
@@ -936,14 +1076,6 @@ func (r *runner) syncOp(sc *Scenario, i int, op Op, nb *network.Neighborhood, cr
 		} else if len(want) > 0 && want[0] == hostValue && got[0] != hostValue {
 			fail("diff", "C17/diff/fanout-host-not-first", fmt.Sprintf("SendTargets to %s: %q", s.target, got), i)
 		}
-		for _, g := range got { // strong reading: own endpoint under another spelling
-			if tt, err := network.NewTargetFromValue(g); err == nil && g != s.target {
-				if creator.targetFor(tt.Ip(), tt.Port()) == s.target {
-					strong("peer-sent-its-own-target-in-other-spelling")
-					break
-				}
-			}
-		}
 	}
 	for _, s := range created {
 		if !isOut[s] && len(s.snapshot()) > 0 {
@@ -952,17 +1084,6 @@ func (r *runner) syncOp(sc *Scenario, i int, op Op, nb *network.Neighborhood, cr
 	}
 	if len(post) != 0 {
 		fail("diff", "C17/diff/scores-after-sync", "score map not reset: {"+scoresCanon(post)+"}", i)
-	}
-	// strong reading counters
-	for a := 0; a < len(outs); a++ {
-		if creator.targetFor(outs[a].ep.Ip, outs[a].ep.Port) == hostValue || outs[a].ep == hostEp {
-			strong("host-endpoint-selected-under-other-spelling")
-		}
-		for b := a + 1; b < len(outs); b++ {
-			if outs[a].target == outs[b].target {
-				strong("same-endpoint-selected-twice")
-			}
-		}
 	}
 
 	// ---- implementation vs model
@@ -1049,12 +1170,69 @@ func (r *runner) syncOp(sc *Scenario, i int, op Op, nb *network.Neighborhood, cr
 	}
 }
 
+func dedupSorted(l []string) []string {
+	var r []string
+	for i, x := range l {
+		if i == 0 || x != l[i-1] {
+			r = append(r, x)
+		}
+	}
+	return r
+}
+
 func keysOf(m map[string]bool) []string {
 	var r []string
 	for k := range m {
 		r = append(r, strings.Replace(k, "\x00", "|", 1))
 	}
 	return r
+}
+
+// networkTable compares the partition of port strings induced by the real IsSameNetworkId with the model's
+// networkId on a table of boundary ports plus random digit strings.
+func (r *runner) networkTable(rng *rand.Rand) []Failure {
+	return r.networkPorts(rng, nil)
+}
+
+func (r *runner) networkPorts(rng *rand.Rand, only []string) []Failure {
+	ports := []string{"10600", "10601", "10699", "10650", "1060", "106", "10", "", "106000", "106001", "10599", "10700",
+		"20600", "20601", "00600", "10060", "1060a", "106ab", "106  ", "a0600", "10 00", "8080", "443", "0", "65535",
+		"106é", "10é00", "1060é", " 10600", "10600 ", "+10600", "010600"}
+	for i := 0; i < 200 && only == nil; i++ {
+		n := 3 + rng.Intn(4)
+		b := make([]byte, n)
+		for j := range b {
+			b[j] = "0123456789"[rng.Intn(10)]
+		}
+		if rng.Intn(2) == 0 && n >= 3 {
+			copy(b, "106")
+		}
+		ports = append(ports, string(b))
+	}
+	if only != nil {
+		ports = only
+	}
+	ans, err := r.drv.ask(map[string]any{"op": "net", "ports": ports})
+	if err != nil {
+		return []Failure{{Kind: "diff", Signature: "C17/harness/driver", Detail: err.Error(), OpIndex: -1}}
+	}
+	ids, _ := ans["ids"].([]any)
+	if len(ids) != len(ports) {
+		return []Failure{{Kind: "diff", Signature: "C17/harness/driver", Detail: "net: wrong answer length", OpIndex: -1}}
+	}
+	r.stats.ModelChecked++
+	for a := range ports {
+		for b := range ports {
+			same := network.NewTarget("h", ports[a]).IsSameNetworkId(network.NewTarget("h", ports[b]))
+			if same != (ids[a] == ids[b]) {
+				rp, _ := json.Marshal(map[string]any{"ports": []string{ports[a], ports[b]}})
+				return []Failure{{Kind: "diff", Signature: "C17/diff/network-id", FoundInput: true, OpIndex: -1, Replay: rp,
+					Detail: fmt.Sprintf("IsSameNetworkId(port %q, port %q)=%v, model networkId %v / %v", ports[a], ports[b], same, ids[a], ids[b])}}
+			}
+		}
+	}
+	r.stats.NetworkPairs += len(ports) * len(ports)
+	return nil
 }
 
 // ---------------------------------------------------------------------------------------------- minimise
@@ -1069,7 +1247,7 @@ func cloneScenario(sc *Scenario) *Scenario {
 // reproduces reports whether sc fails with signature sig in any of `tries` executions
 func (r *runner) reproduces(sc *Scenario, sig string, tries int) bool {
 	for t := 0; t < tries; t++ {
-		for _, f := range r.runScenario(sc, false) {
+		for _, f := range r.runScenario(sc, false, r.strongOnly) {
 			if f.Signature == sig {
 				return true
 			}
@@ -1126,12 +1304,37 @@ func (r *runner) minimise(sc *Scenario, f Failure) *Scenario {
 
 // ---------------------------------------------------------------------------------------------- witnesses
 
-// witnesses replays, on the real code, the concrete witnesses of the Lean counterexample theorems
-// (Neigh.Props: C17_*_counterexample, C17_negative_max_panics) and re-checks the parse table of Neigh.Ex.
-func witnesses() []map[string]any {
-	var res []map[string]any
-	rec := func(name string, reproduced bool, detail string) {
-		res = append(res, map[string]any{"name": name, "reproduced": reproduced, "detail": detail})
+// Regression witnesses: the concrete inputs on which the unrepaired code violated C17 (they were the
+// counterexample witnesses of Neigh.Props before the repair).  They must NOT reproduce.
+type witness struct {
+	Name     string
+	Sig      string // C17/strong/<Sig>
+	Scenario *Scenario
+}
+
+func regressionWitnesses() []witness {
+	mk := func(max int, ops ...Op) *Scenario {
+		return &Scenario{HostIp: "10.0.0.9", HostPort: "10600", Max: max, Seeds: []Seed{{"10.0.0.1:10600", 0}},
+			Ops: ops, Kinds: map[string]string{}}
+	}
+	return []witness{
+		{"two spellings of one endpoint give two outbounds", "same-endpoint-selected-twice",
+			mk(5, Op{Kind: "add", Targets: []string{"10.0.0.2:10600", "[10.0.0.2]:10600"}}, Op{Kind: "sync"})},
+		{"the host under another spelling becomes an outbound", "host-endpoint-selected-under-other-spelling",
+			mk(5, Op{Kind: "add", Targets: []string{"[10.0.0.9]:10600"}}, Op{Kind: "sync"})},
+		{"a peer announced as [ip]:port is sent its own target", "peer-sent-its-own-target-in-other-spelling",
+			mk(5, Op{Kind: "add", Targets: []string{"[10.0.0.2]:10600"}}, Op{Kind: "sync"})},
+		{"Incentive stores a malformed or foreign-network target", "retained-unacceptable-target",
+			mk(3, Op{Kind: "inc", Target: "junk"}, Op{Kind: "sync"}, Op{Kind: "add", Targets: []string{"10.0.0.2:10600"}},
+				Op{Kind: "inc", Target: "10.0.0.6:8080"}, Op{Kind: "sync"})},
+	}
+}
+
+// runWitnesses executes the regression witnesses on the real code (endpoint-level clauses only, through all
+// operations), re-checks the parse table of Neigh.Ex, and the negative-maximum panic (outside C17's quantifier).
+func (r *runner) runWitnesses() (res []map[string]any, fails []Failure) {
+	rec := func(name string, reproduced bool, expected bool, detail string) {
+		res = append(res, map[string]any{"name": name, "reproduced": reproduced, "expected": expected, "detail": detail})
 	}
 	table := map[string][2]string{
 		"10.0.0.1:10600": {"10.0.0.1", "10600"}, "10.0.0.2:10600": {"10.0.0.2", "10600"},
@@ -1140,101 +1343,42 @@ func witnesses() []map[string]any {
 		"[10.0.0.9]:10600": {"10.0.0.9", "10600"}, "10.0.0.5:10601": {"10.0.0.5", "10601"},
 		"10.0.0.6:8080": {"10.0.0.6", "8080"},
 	}
-	okTable := true
 	var bad []string
 	for v, want := range table {
 		t, err := network.NewTargetFromValue(v)
 		if err != nil || t.Ip() != want[0] || t.Port() != want[1] || network.NewTarget(want[0], want[1]).Value() != want[0]+":"+want[1] {
-			okTable = false
 			bad = append(bad, v)
 		}
 	}
 	if _, err := network.NewTargetFromValue("junk"); err == nil {
-		okTable = false
 		bad = append(bad, "junk")
 	}
-	rec("Neigh.Ex.parse table matches NewTargetFromValue/NewTarget", okTable, strings.Join(bad, ","))
-
-	mk := func(max int) (*network.Neighborhood, *fakeCreator) {
-		c := &fakeCreator{lookup: map[string]string{}, unreachable: map[string]bool{}}
-		return network.NewNeighborhood(c, "10.0.0.9", "10600", max, map[string]int{"10.0.0.1:10600": 0}, nil), c
+	rec("Neigh.Ex parse/join table matches NewTargetFromValue/NewTarget", len(bad) == 0, true, strings.Join(bad, ","))
+	if len(bad) > 0 {
+		fails = append(fails, Failure{Kind: "tie", Signature: "C17/param/ex-table", Detail: "Neigh.Ex table differs from the real functions on " + strings.Join(bad, ","), OpIndex: -1})
 	}
-	settle := func(nb *network.Neighborhood) {
-		for _, s := range nb.Senders() {
-			select {
-			case <-s.(*fakeSender).first:
-			case <-time.After(3 * time.Second):
-			}
-		}
-	}
-	{ // C17_distinct_counterexample
-		nb, _ := mk(5)
-		nb.AddTargets([]string{"10.0.0.2:10600", "[10.0.0.2]:10600"})
-		nb.Synchronize(0)
-		settle(nb)
-		ss := nb.Senders()
-		ok := len(ss) == 2 && ss[0].Target() == ss[1].Target()
-		var ts []string
-		for _, s := range ss {
-			ts = append(ts, s.Target())
-		}
-		rec("C17_distinct_counterexample: two spellings of one endpoint give two outbounds", ok, fmt.Sprintf("Senders() targets %q", ts))
-	}
-	{ // C17_not_self_counterexample
-		nb, _ := mk(5)
-		nb.AddTargets([]string{"[10.0.0.9]:10600"})
-		nb.Synchronize(0)
-		settle(nb)
-		ss := nb.Senders()
-		ok := len(ss) == 1 && ss[0].Target() == nb.HostTarget()
-		rec("C17_not_self_counterexample: the host under another spelling becomes an outbound", ok, fmt.Sprintf("HostTarget()=%q outbounds=%d", nb.HostTarget(), len(ss)))
-	}
-	{ // C17_fanout_counterexample
-		nb, _ := mk(5)
-		nb.AddTargets([]string{"[10.0.0.2]:10600"})
-		nb.Synchronize(0)
-		settle(nb)
-		ss := nb.Senders()
-		ok := false
-		detail := ""
-		if len(ss) == 1 {
-			calls := ss[0].(*fakeSender).snapshot()
-			if len(calls) == 1 {
-				detail = fmt.Sprintf("peer %s was sent %q", ss[0].Target(), calls[0])
-				for _, v := range calls[0] {
-					if v == "[10.0.0.2]:10600" {
-						ok = true
-					}
+	for _, w := range regressionWitnesses() {
+		reproduced, detail := false, ""
+		for t := 0; t < 5 && !reproduced; t++ {
+			for _, f := range r.runScenario(w.Scenario, false, true) {
+				if f.Signature == "C17/strong/"+w.Sig {
+					reproduced, detail = true, f.Detail
+					f.Detail = "regression witness reproduces (" + w.Name + "): " + f.Detail
+					f.Replay, _ = json.Marshal(map[string]any{"witness": w.Name, "signature": f.Signature, "scenario": w.Scenario})
+					fails = append(fails, f)
+					break
 				}
 			}
 		}
-		rec("C17_fanout_counterexample: a peer announced as [ip]:port is sent its own target", ok, detail)
+		rec("C17/strong/"+w.Sig+": "+w.Name, reproduced, false, detail)
 	}
-	{ // C17_retained_inv_counterexample (+ consequences)
-		nb, _ := mk(3)
-		nb.Incentive("junk")
-		m, _ := peekScores(nb)
-		nb.Synchronize(0)
-		settle(nb)
-		ok := m["junk"] == 1 && len(nb.Senders()) == 0
-		rec("C17_retained_inv_counterexample: Incentive(\"junk\") is stored; the next round ignores the seeds and has no outbound", ok,
-			fmt.Sprintf("scores={%s} outbounds=%d", scoresCanon(m), len(nb.Senders())))
-		nb2, _ := mk(1)
-		nb2.AddTargets([]string{"10.0.0.2:10600"})
-		nb2.Incentive("10.0.0.6:8080")
-		m2, _ := peekScores(nb2)
-		nb2.Synchronize(0)
-		settle(nb2)
-		ss := nb2.Senders()
-		ok2 := m2["10.0.0.6:8080"] == 1 && len(ss) == 1 && ss[0].Target() == "10.0.0.6:8080"
-		rec("Incentive of a foreign-network target makes it the preferred outbound", ok2, fmt.Sprintf("scores={%s}", scoresCanon(m2)))
-	}
-	{ // C17_negative_max_panics
-		nb, _ := mk(-1)
+	{ // C17_negative_max_panics (outside the quantifier of C17; conformance with the model only)
+		c := &fakeCreator{unreachable: map[string]bool{}}
+		nb := network.NewNeighborhood(c, "10.0.0.9", "10600", -1, map[string]int{"10.0.0.1:10600": 0}, nil)
 		msg, p := safely(func() { nb.Synchronize(0) })
-		rec("C17_negative_max_panics: max=-1 with one reachable seed panics", p, msg)
+		rec("C17_negative_max_panics: max=-1 with one reachable seed panics", p, true, msg)
 	}
-	return res
+	return
 }
 
 // ---------------------------------------------------------------------------------------------- main
@@ -1245,13 +1389,18 @@ func main() {
 	driver := flag.String("driver", "", "path of the neighdriver executable")
 	replay := flag.String("replay", "", "replay file (a ./check replay file or a bare scenario)")
 	negMax := flag.Bool("negmax", true, "also generate negative maxima (conformance with the model only)")
-	strict := flag.Bool("strict", false, "report violations of the strong (endpoint) reading as failures")
+	strongOnly := flag.Bool("strong-only", false, "with --replay: endpoint-level clauses only, through all operations (regression witnesses)")
 	wit := flag.Bool("witnesses", false, "run the counterexample witnesses of Neigh.Props on the real code")
 	maxFailures := flag.Int("max-failures", 5, "stop after this many distinct failure signatures")
 	flag.Parse()
 
 	if *wit {
-		out, _ := json.Marshal(map[string]any{"witnesses": witnesses()})
+		r := &runner{stats: newStats()}
+		ws, fs := r.runWitnesses()
+		if fs == nil {
+			fs = []Failure{}
+		}
+		out, _ := json.Marshal(map[string]any{"witnesses": ws, "failures": fs})
 		fmt.Println(string(out))
 		return
 	}
@@ -1262,7 +1411,7 @@ func main() {
 		os.Exit(2)
 	}
 	defer drv.close()
-	r := &runner{drv: drv, stats: newStats(), strict: *strict}
+	r := &runner{drv: drv, stats: newStats(), strongOnly: *strongOnly}
 	var failures []Failure
 	seenSig := map[string]bool{}
 	record := func(sc *Scenario, fs []Failure, minimise bool) {
@@ -1289,6 +1438,7 @@ func main() {
 		var outer struct {
 			Replay struct {
 				Scenario *Scenario `json:"scenario"`
+				Ports    []string  `json:"ports"`
 			} `json:"replay"`
 			Scenario *Scenario `json:"scenario"`
 		}
@@ -1296,6 +1446,12 @@ func main() {
 		sc := outer.Replay.Scenario
 		if sc == nil {
 			sc = outer.Scenario
+		}
+		if sc == nil && len(outer.Replay.Ports) > 0 {
+			for _, f := range r.networkPorts(nil, outer.Replay.Ports) {
+				failures = append(failures, f)
+			}
+			sc = &Scenario{HostIp: "10.0.0.9", HostPort: "10600", Ops: []Op{{Kind: "sync"}}}
 		}
 		if sc == nil {
 			sc = &Scenario{}
@@ -1306,13 +1462,18 @@ func main() {
 		}
 		sc.Kinds = map[string]string{}
 		for t := 0; t < 50; t++ { // map order and shuffle are random: repeat
-			record(sc, r.runScenario(sc, true), false)
+			record(sc, r.runScenario(sc, true, *strongOnly), false)
 		}
 	} else {
 		rng := rand.New(rand.NewSource(*seed))
+		for _, f := range r.networkTable(rng) {
+			seenSig[f.Signature] = true
+			failures = append(failures, f)
+			fmt.Fprintf(os.Stderr, "FAIL %s: %s\n", f.Signature, f.Detail)
+		}
 		for r.stats.Rounds < *rounds && len(failures) < *maxFailures {
 			sc := genScenario(rng, *negMax)
-			record(sc, r.runScenario(sc, true), true)
+			record(sc, r.runScenario(sc, true, false), true)
 		}
 	}
 	if failures == nil {
@@ -1325,7 +1486,7 @@ func main() {
 		"seed": *seed, "evaluations": r.stats.Evaluations, "rounds": r.stats.Rounds, "scenarios": r.stats.Scenarios,
 		"distinct_nontrivial": len(r.stats.Nontrivial),
 		"rule":                "distinct (host, max, iterated score map, unreachable set) of Synchronize rounds with >=2 selectable targets, >=1 outbound, and a target left out or filtered (host/malformed/unreachable)",
-		"samples":             r.stats.Samples, "model_answers_compared": r.stats.ModelChecked,
+		"samples":             r.stats.Samples, "model_answers_compared": r.stats.ModelChecked, "network_id_pairs": r.stats.NetworkPairs, "param_hypothesis_checks": r.stats.ParamChecks,
 		"hist": map[string]any{"op_kinds": r.stats.OpKinds, "target_kinds": r.stats.TargetKinds, "max": r.stats.MaxHist,
 			"outbound_size": r.stats.OutSizeHist, "source": r.stats.SourceHist, "round_shapes": r.stats.RoundShapes,
 			"strong_reading_hits": r.stats.Strong},
